@@ -211,4 +211,35 @@ def checkVI (op : String) (args res : List String) : Verdict :=
     | _, _, _ => .skip s!"unknown vi op {op}"
   | _ => .skip "short vi line"
 
+/-- life cycle of `lp_interval_t` objects used as outputs after arbitrary histories: assign / construct_copy / swap must
+    reproduce the source, set_a / set_b replace one end (a point becomes a proper interval), collapse_to gives the point -/
+def checkVIL (op : String) (args res : List String) : Verdict :=
+  let judge (tag : String) (got want : VI) : Verdict :=
+    if !viWf got then .viol "vil-wf" s!"ill-formed interval {showVI got}"
+    else if viEq got want then .ok tag
+    else .viol s!"vil-{op}" s!"got {showVI got}, expected {showVI want}"
+  let kind (I : VI) : String := if I.isPoint then "pt" else "iv"
+  match op, args, res with
+  | "copy", [src], [r] =>
+    (match pVI? src, pVI? r with
+     | some x, some r => judge s!"vil/copy/{kind x}" r x
+     | _, _ => .skip "bad")
+  | "collapse", [i, v], [r] =>
+    (match pVI? i, pEP? v, pVI? r with
+     | some x, some v, some r => judge s!"vil/collapse/{kind x}" r (VI.point v)
+     | _, _, _ => .skip "bad")
+  | "seta", [i, v, o], [r] =>
+    (match pVI? i, pEP? v, pVI? r with
+     | some x, some v, some r =>
+       let want := if x.isPoint then VI.mk' v (o = "1") x.a false else VI.mk' v (o = "1") x.b x.bOpen
+       judge s!"vil/seta/{kind x}" r want
+     | _, _, _ => .skip "bad")
+  | "setb", [i, v, o], [r] =>
+    (match pVI? i, pEP? v, pVI? r with
+     | some x, some v, some r =>
+       let want := if x.isPoint then VI.mk' x.a false v (o = "1") else VI.mk' x.a x.aOpen v (o = "1")
+       judge s!"vil/setb/{kind x}" r want
+     | _, _, _ => .skip "bad")
+  | _, _, _ => .skip s!"unknown vil op {op}"
+
 end LP.Driver
